@@ -73,6 +73,10 @@ func (core *JApiCore) getIncludedFilePath(keyword *scanner.Lexeme) (string, *jer
 		if info.IsDir() {
 			return "", incorrectParameter(keyword, path, "is a directory")
 		}
+		if !info.Mode().IsRegular() {
+			// A named pipe would block the reading for ever, a device never ends.
+			return "", incorrectParameter(keyword, path, "is not a regular file")
+		}
 		return absolutePath, nil
 	}
 
